@@ -70,7 +70,7 @@ pub fn chk_value<K: Kmer>(s: &[u8], exts: u8) -> Result<(), String> {
             return Err(format!("from_bytes/get: pos {} got {} want {}", i, km.get(i), s[i]));
         }
     }
-    let it: Seq = km.iter().collect();
+    let it: Seq = km.iter().take(k + 8).collect();
     if it != s {
         return Err(format!("iter: got {} want {}", to_ascii(&it), to_ascii(s)));
     }
